@@ -146,22 +146,29 @@ def absGuess (fs : FS) (src : Option Bytes) (rel : Bytes) : Option Bytes :=
     | some s => guessAbsPath fs s rel
     | none => some rel
 
-/-- "Canonicalize, if possible." -/
-def canonIfExists (fs : FS) (abs : Bytes) : Bytes := (fs.realpath abs).getD abs
+/-- "Canonicalize, if possible; otherwise resolve '..' lexically": `none` = the `?` after
+`normalize_path(&abs_path)`, i.e. the key is dropped -/
+def canonOrNorm (fs : FS) (abs : Bytes) : Option Bytes :=
+  match fs.realpath abs with
+  | some p => some p
+  | none => normalizePath abs
 
-/-- the absolute path after "Canonicalize, if possible."; `none` only if `guess_abs_path`'s
-`strip_prefix(ancestor).unwrap()` failed, which `std` excludes -/
+/-- the absolute path after that step (`none`: `guess_abs_path`'s impossible `unwrap` failure, or
+the key is dropped) -/
 def absCanon (fs : FS) (src : Option Bytes) (rel : Bytes) : Option Bytes :=
-  (absGuess fs src rel).map (canonIfExists fs)
+  (absGuess fs src rel).bind (canonOrNorm fs)
 
 /-- `get_abs_path`: `ok none` = dropped because a `..` cannot be resolved -/
 def getAbsPath (fs : FS) (src : Option Bytes) (rel : Bytes) : Res (Option (Bytes × Bytes)) :=
-  match absCanon fs src rel with
+  match absGuess fs src rel with
   | none => .panic "guess_abs_path.strip_prefix"
-  | some abs =>
-    match normalizePath abs, normalizePath (fixupRelPath src abs rel) with
-    | some a, some r => .ok (some (a, r))
-    | _, _ => .ok none
+  | some abs0 =>
+    match canonOrNorm fs abs0 with
+    | none => .ok none
+    | some abs =>
+      match normalizePath abs, normalizePath (fixupRelPath src abs rel) with
+      | some a, some r => .ok (some (a, r))
+      | _, _ => .ok none
 
 /-- lines 336-353: backslashes to slashes, path mapping, prefix removal -/
 def keyPath (cfg : Cfg) (key : Bytes) : Bytes :=
